@@ -449,8 +449,12 @@ def run_check(prop, tier, replay=None):
         rp = write_replay(pid, name, 'tier=%s seed=%d reason=%s' % (tier, seed, why.replace('\n', ' ')[:300]),
                           [small.line] + ([cases[i].line] if small.line != cases[i].line else []))
         print('VIOLATION property=%s replay=%s' % (pid, rp))
-        for (j, w) in fails[:5]:
+        show = int(os.environ.get('VERIF_SHOW', '5'))          # VERIF_SHOW=n: list more failing cases and mismatches (a debugging aid)
+        for (j, w) in fails[:show]:
             log('  failing case: %s  => %s  [%s]' % (cases[j].line[:200], impl[j][:200], w[:200]))
+        if show > 5:
+            for j in mism[:show]:
+                log('  mismatch: %s  impl %s  model %s' % (cases[j].line[:200], str(impl[j])[:200], str(model[j])[:200]))
         rc = 1
     elif not pr['ok'] or mism:
         what = []
